@@ -442,6 +442,12 @@ class Interp(object):
             a.value = ast.copy_location(ast.Subscript(value=first, slice=value.slice, ctx=value.ctx), value)
             b.value = ast.copy_location(ast.Subscript(value=rest, slice=value.slice, ctx=value.ctx), value)
             return first, a, b
+        if isinstance(value, ast.BoolOp) and isinstance(value.op, ast.Or) and len(value.values) == 2 and isinstance(node, ast.Assign) \
+                and all(isinstance(v_, (ast.Name, ast.Attribute)) for v_ in value.values):
+            # `x = a or b` (plain names): x is a when a is truthy, else b
+            a, b = copy.copy(node), copy.copy(node)
+            a.value, b.value = value.values[0], value.values[1]
+            return value.values[0], a, b
         return None
 
     def x_Return(self, node, st, fctx):
